@@ -155,6 +155,9 @@ def judge (force : Nat) (st : St) (method path : Bytes) (hs : List (Bytes × Byt
     { s with bad := s.bad ++ b, cls := s.cls ++ c, labels := s.labels ++ [l] }
   let st1 := if ranged ∧ cacheMethod ∧ !reqAuth ∧ o.contactRanges.any (· ≠ []) then
       add st1 ["bad:C15:range-forwarded-to-the-origin-on-a-cache-enabled-rule"] [] "range-forwarded" else st1
+  if o.framing == "noresponse" then
+    -- nothing came back within the client's deadline: the key is wedged (C13), the request unanswered (C05)
+    add st1 ["bad:C13:request-got-no-response-the-key-is-wedged", "bad:C05:request-got-no-response"] [] "noresponse" else
   match cur? with
   | none => add st1 [] [] "no-origin"
   | some c =>
